@@ -42,6 +42,25 @@ CLAIMED = {
              "including the offset at which the next request is parsed.",
         design_ref="DESIGN.md 4 C07, 9",
         technique="TLA+ model checking of the wsgi.input algorithm vs. file semantics + TLC trace validation of real call sequences"),
+    "C02": dict(
+        text="TLC checks specs/Response.tla exhaustively: request facts (version, HEAD, Connection) x worker policy (sync / "
+             "gthread / async, keep-alive, keep list full, alive) x application program (status class, declared "
+             "Content-Length, iterable / write() / file wrapper with and without descriptor and offset, chunk sequences with "
+             "empty chunks) against ExactlyOneHead, BodyEqualsAppOutputCutToCL, ConsistentDelimiting, ChunkedOnlyWhenAllowed, "
+             "KeepAliveOnlyIfSafe, NeverExceedsContentLength. TLC -simulate behaviours and seeded larger programs are served by "
+             "the real handle() of SyncWorker, ThreadWorker (+finish_request) and AsyncWorker on scripted sockets; the bytes the "
+             "client received are read by an independent strict response reader and judged by TLC (specs/ResponseTrace.tla).",
+        design_ref="DESIGN.md 4 C02, 9",
+        technique="TLA+ model checking of the response writer + TLC trace validation of exchanges served by the real worker handle()"),
+    "C09": dict(
+        text="TLC checks specs/RespHead.tla (start_response / process_headers / send_headers as a decision procedure over "
+             "string kinds, first and second calls with/without exc_info, before/after the head is sent) against "
+             "RefusedBeforeAnyByte, HeadIsExactly, HopByHopNotForwarded, SecondCallRules; simulated and seeded cases are "
+             "expanded to concrete strings (every CTL byte, CR/LF/NUL placements, non-latin-1, hop-by-hop names in case "
+             "variants), passed to the real start_response inside the real handle() of the three worker families, and the "
+             "received head is judged line by line by TLC (specs/RespHeadTrace.tla).",
+        design_ref="DESIGN.md 4 C09, 9",
+        technique="TLA+ model checking of the header-acceptance decision table + TLC trace validation of real response heads"),
 }
 
 NOT_YET = {
